@@ -76,8 +76,29 @@ fn child_cat(k: usize) {
     println!("{}", outv.join(" "));
 }
 
+fn child_exit(idx: usize) {
+    // child mode: write 'A' to stdout (stack 1) and 'B' to stderr (stack 2) through the interpreter's wrappers using
+    // buffering writers over the real streams, then pop stack idx (1 or 2), which must flush both and exit 0 / 1
+    use hyeong::core::execute::{pop_stack_wrap, push_stack_wrap};
+    let mut st = UnOptState::new();
+    let mut o = std::io::BufWriter::new(std::io::stdout());
+    let mut e = std::io::BufWriter::new(std::io::stderr());
+    let mut ipt = CustomReader::new(String::new());
+    push_stack_wrap(&mut o, &mut e, &mut st, 1, Num::from_num(65)).unwrap();
+    push_stack_wrap(&mut o, &mut e, &mut st, 2, Num::from_num(66)).unwrap();
+    let _ = pop_stack_wrap(&mut ipt, &mut o, &mut e, &mut st, idx);
+    // not reached for idx 1/2; leak the writers so that nothing is flushed here if the pop returned
+    std::mem::forget(o);
+    std::mem::forget(e);
+    std::process::exit(77);
+}
+
 fn main() {
     std::panic::set_hook(Box::new(|_| {}));
+    if let Ok(v) = std::env::var("VREPLAY_CHILD_EXIT") {
+        child_exit(v.parse().unwrap());
+        return;
+    }
     if let Ok(v) = std::env::var("VREPLAY_CHILD_CAT") {
         child_cat(v.parse().unwrap());
         return;
@@ -256,6 +277,15 @@ fn run(f: &[String]) -> String {
                 }
                 let outp = child.wait_with_output().unwrap();
                 String::from_utf8_lossy(&outp.stdout).trim().to_string()
+            }
+            "exit.pop" => {
+                // exit.pop \t <idx>: child process pops stack idx after writing; reports status, stdout, stderr
+                let outp = std::process::Command::new(std::env::current_exe().unwrap())
+                    .env("VREPLAY_CHILD_EXIT", f[1])
+                    .stdin(std::process::Stdio::null())
+                    .output()
+                    .unwrap();
+                format!("status={} out={} err={}", outp.status.code().unwrap_or(-1), String::from_utf8_lossy(&outp.stdout), String::from_utf8_lossy(&outp.stderr))
             }
             "num.roundtrip" => { let a = num(f[1]); let s = a.to_string(); let b = Num::from_string(s.clone()); format!("{} {}", s, (a.is_nan() && b.is_nan()) || a == b) }
             _ => "ERR unknown op".to_string(),
